@@ -543,6 +543,31 @@ def run_case(kind, p):
                         msgs.append(f"fastmatch with {what} differs from the match with unit elevations "
                                     f"(selected {None if is_invalid(rr) else int(rr.selector.sum())} vs "
                                     f"{None if is_invalid(ones_) else int(ones_.selector.sum())})")
+            # the same numbers in other containers: read-only arrays (the caller's data is input, not scratch space), column-major
+            # position arrays, start parameters as tuples / lists -- same match
+            if p.get("optional_args", True) and len(pts):
+                def ro(x):
+                    x = np.array(x, dtype=np.float64)
+                    x.setflags(write=False)
+                    return x
+                variants = (
+                    ("read-only input arrays", dict(centers=ro(pts), refineds=ro(pts), peak_values=ro(np.ones(len(pts))),
+                                                    peak_elevations=ro(elev), zero=ro(p["start_zero"]), a=ro(p["start_a"]), b=ro(p["start_b"]))),
+                    ("column-major positions, start parameters as tuples",
+                     dict(centers=np.asfortranarray(pts), refineds=np.asfortranarray(pts), peak_values=np.ones(len(pts)),
+                          peak_elevations=np.asarray(elev, dtype=np.float64).copy(),
+                          zero=tuple(float(v) for v in p["start_zero"]), a=tuple(float(v) for v in p["start_a"]),
+                          b=list(float(v) for v in p["start_b"]))))
+                for what, kw_ in variants:
+                    try:
+                        rr = grm.Matcher(tolerance=p["tol"], min_weight=p["min_weight"], min_match=p["min_match"]).fastmatch(**kw_)
+                    except Exception as e:      # noqa: BLE001
+                        msgs.append(f"fastmatch with {what} raised {type(e).__name__}: {e}")
+                        continue
+                    if is_invalid(rr) != is_invalid(r) or (not is_invalid(rr) and (
+                            not np.array_equal(rr.selector, r.selector)
+                            or not np.array_equal(np.concatenate([rr.zero, rr.a, rr.b]), np.concatenate([r.zero, r.a, r.b]), equal_nan=True))):
+                        msgs.append(f"fastmatch with {what} differs from the match with ordinary arrays")
             if not is_invalid(r):
                 if len(r.indices) != int(r.selector.sum()):
                     msgs.append("len(indices) != number of selected peaks")
